@@ -7,6 +7,7 @@ package main
 import (
 	"bytes"
 	"fmt"
+	"reflect"
 	"sort"
 	"strings"
 
@@ -15,6 +16,8 @@ import (
 	"seehuhn.de/go/sfnt"
 	"seehuhn.de/go/sfnt/cmap"
 	"seehuhn.de/go/sfnt/glyph"
+	"seehuhn.de/go/sfnt/opentype/classdef"
+	"seehuhn.de/go/sfnt/opentype/coverage"
 	"seehuhn.de/go/sfnt/opentype/gdef"
 	"seehuhn.de/go/sfnt/opentype/gtab"
 	"seehuhn.de/go/sfnt/zzverif/simgen"
@@ -37,9 +40,18 @@ func gtabThroughDisk(c *wk.Case, info *gtab.Info, tp gtab.Type, damage bool) (*g
 	}
 	if damage {
 		nf := 1 + c.T.Weighted(5, 2, 1)
+		regions := locate(info, data)
 		for i := 0; i < nf; i++ {
 			var f simgen.Fault
-			data, f = simgen.Corrupt(c.T, data, 0, len(data), nil)
+			lo, hi := 0, len(data)
+			if len(regions) > 0 && c.T.Chance(1, 3) {
+				// aim at one coverage / class definition table inside the
+				// encoded table (found by searching for its encoding)
+				r := regions[c.T.Draw(len(regions))]
+				lo, hi = r[0], r[1]
+				c.Count("faults_aimed_at_coverage_or_classdef", 1)
+			}
+			data, f = simgen.Corrupt(c.T, data, lo, hi, nil)
 			c.Count("fault_"+f.Kind, 1)
 			c.Logf("%s table fault: %v", tp, f)
 		}
@@ -61,6 +73,75 @@ func gtabThroughDisk(c *wk.Case, info *gtab.Info, tp gtab.Type, damage bool) (*g
 	}
 	c.Count("reader_accepted", 1)
 	return res, true
+}
+
+var (
+	covTableType = reflect.TypeOf(coverage.Table{})
+	covSetType   = reflect.TypeOf(coverage.Set{})
+	classDefType = reflect.TypeOf(classdef.Table{})
+)
+
+// locate finds the byte ranges of the coverage and class definition tables
+// of info inside its encoding, by searching for their encodings.
+func locate(info *gtab.Info, data []byte) [][2]int {
+	var res [][2]int
+	seen := map[string]bool{}
+	add := func(enc []byte) {
+		if len(enc) < 4 || seen[string(enc)] {
+			return
+		}
+		seen[string(enc)] = true
+		if i := bytes.Index(data, enc); i >= 0 {
+			res = append(res, [2]int{i, i + len(enc)})
+		}
+	}
+	var walk func(v reflect.Value)
+	walk = func(v reflect.Value) {
+		switch v.Type() {
+		case covTableType:
+			if t := v.Interface().(coverage.Table); len(t) > 0 {
+				add(t.Encode())
+			}
+			return
+		case covSetType:
+			if t := v.Interface().(coverage.Set); len(t) > 0 {
+				add(t.ToTable().Encode())
+			}
+			return
+		case classDefType:
+			if t := v.Interface().(classdef.Table); len(t) > 0 {
+				add(t.Append(nil))
+			}
+			return
+		}
+		switch v.Kind() {
+		case reflect.Ptr, reflect.Interface:
+			if !v.IsNil() {
+				walk(v.Elem())
+			}
+		case reflect.Struct:
+			for i := 0; i < v.NumField(); i++ {
+				if v.Type().Field(i).IsExported() {
+					walk(v.Field(i))
+				}
+			}
+		case reflect.Slice:
+			if v.Type().Elem().Kind() == reflect.Struct || v.Type().Elem().Kind() == reflect.Ptr || v.Type().Elem().Kind() == reflect.Interface || v.Type().Elem().Kind() == reflect.Map || v.Type().Elem().Kind() == reflect.Slice {
+				for i := 0; i < v.Len() && i < 64; i++ {
+					walk(v.Index(i))
+				}
+			}
+		}
+	}
+	defer func() { recover() }() // an encoder that refuses a shape: no regions
+	for _, l := range info.LookupList {
+		if l != nil {
+			for _, st := range l.Subtables {
+				walk(reflect.ValueOf(st))
+			}
+		}
+	}
+	return res
 }
 
 func gdefThroughDisk(c *wk.Case, tab *gdef.Table, damage bool) (*gdef.Table, bool) {
